@@ -151,6 +151,9 @@ var corpus = []string{
 	`{for k, v in secmm : "x" => k}`,
 	`true ? [{(sec) = 1}] : [{b = [2]}]`,
 	`true ? {a = {(sec) = 1}} : {a = {zz = [2]}}`,
+	// the remaining path of that defect (known finding conditional-mismatch-quotes-attribute-name): an
+	// inner conditional that FAILS hands the outer one a typed unknown without its arms' marks
+	`true ? {a = 1} : ([] ? null : {for v in secst : upper(v) => "x"})`,
 	// every other kind of erroneous use of a secret
 	`secl[sec]`, `seco[sec]`, `sectp[secn]`, `secmap[sec]`, `sec + 1`, `upper(secl)`, `"${seco}"`, `sec[0]`, `sec.a`,
 	`{(sec) = 1}.zz`, `{(sec) = 1}["zz"]`, `takesmap({(sec) = [1]})`, `takesobj({(sec) = 1})`, `takeslistobj([{(sec) = 1}])`,
